@@ -163,16 +163,16 @@ package mcp
 //@   invariant isnil(self.state) || istype(self.state, State)
 //@
 //@ func stdioClientTransport.sendRequest
-//@   trusted[C16,C14,C01]
+//@   trusted[C16,C14,C01,C02]
 //@   modifies *
 //@   ensures[C16] netops == old(netops) + 1
-//@   ensures[C16,C14,C01] ret1 == nil ==> ret != nil
+//@   ensures[C16,C14,C01,C02] ret1 == nil ==> ret != nil
 //@ func stdioClientTransport.sendNotification
-//@   trusted[C16,C14,C01]
+//@   trusted[C16,C14,C01,C02]
 //@   modifies *
 //@   ensures[C16] netops == old(netops) + 1
 //@ func stdioClientTransport.close
-//@   trusted[C16,C14,C01]
+//@   trusted[C16,C14,C01,C02]
 //@   modifies *
 //@   ensures[C16] netops == old(netops)
 //@
@@ -1162,3 +1162,43 @@ package mcp
 //@   ensures[C01 one-exchange-per-call-without-configured-retry] old(t.retryConfig) == nil ==> handles <= old(handles) + 1
 //@ func sseClientTransport.sendRequestInternal
 //@   ensures[C01 one-exchange-per-call] handles <= old(handles) + 1
+
+// ---------------------------------------------------------------------------
+// C02 — wire fidelity of the hand-written decoders.  The encoder is encoding/json over the
+// struct tags (assumed: {"type":"text","text":t}, {"type":"image"|"audio","data":d,"mimeType":m},
+// {"type":"embedded_resource","resource":{uri,mimeType,text|blob}}); each decoder gives back,
+// for the map encoding/json decodes such an object into, the value it was made from.
+//@
+//@ pred strAt(m map[string]interface{}, k string) = (k in m) && istype(m[k], string)
+//@ pred nonEmptyAt(m map[string]interface{}, k string) = strAt(m, k) && m[k].(string) != ""
+//@
+//@ func parseTextContent
+//@   pure
+//@   ensures[C02 every-string-including-the-empty-one-is-decoded-as-that-text] strAt(contentMap, "text") ==> ret1 == nil && istype(ret, TextContent) && ret.(TextContent).Text == contentMap["text"].(string) && ret.(TextContent).Type == "text"
+//@   ensures[C02 a-missing-text-member-is-an-error] !strAt(contentMap, "text") ==> ret1 != nil
+//@ func parseImageContent
+//@   pure
+//@   ensures[C02 image-data-and-mime-type-are-decoded-unchanged] nonEmptyAt(contentMap, "data") && nonEmptyAt(contentMap, "mimeType") ==> ret1 == nil && istype(ret, ImageContent) && ret.(ImageContent).Data == contentMap["data"].(string) && ret.(ImageContent).MimeType == contentMap["mimeType"].(string) && ret.(ImageContent).Type == "image"
+//@ func parseAudioContent
+//@   pure
+//@   ensures[C02 audio-data-and-mime-type-are-decoded-unchanged] nonEmptyAt(contentMap, "data") && nonEmptyAt(contentMap, "mimeType") ==> ret1 == nil && istype(ret, AudioContent) && ret.(AudioContent).Data == contentMap["data"].(string) && ret.(AudioContent).MimeType == contentMap["mimeType"].(string) && ret.(AudioContent).Type == "audio"
+//@ func parseResourceContents
+//@   pure
+//@   ensures[C02 a-text-resource-keeps-uri-mime-type-and-text-even-an-empty-one] nonEmptyAt(contentMap, "uri") && strAt(contentMap, "text") ==> ret1 == nil && istype(ret, TextResourceContents) && ret.(TextResourceContents).URI == contentMap["uri"].(string) && ret.(TextResourceContents).Text == contentMap["text"].(string) && (strAt(contentMap, "mimeType") ==> ret.(TextResourceContents).MIMEType == contentMap["mimeType"].(string))
+//@   ensures[C02 a-blob-resource-keeps-uri-mime-type-and-blob] nonEmptyAt(contentMap, "uri") && !strAt(contentMap, "text") && nonEmptyAt(contentMap, "blob") ==> ret1 == nil && istype(ret, BlobResourceContents) && ret.(BlobResourceContents).URI == contentMap["uri"].(string) && ret.(BlobResourceContents).Blob == contentMap["blob"].(string) && (strAt(contentMap, "mimeType") ==> ret.(BlobResourceContents).MIMEType == contentMap["mimeType"].(string))
+//@ func parseContent
+//@   pure
+//@   ensures[C02 every-content-kind-a-handler-can-return-is-decoded] strAt(contentMap, "type") && (contentMap["type"].(string) == "text" && strAt(contentMap, "text") || contentMap["type"].(string) == "image" && nonEmptyAt(contentMap, "data") && nonEmptyAt(contentMap, "mimeType") || contentMap["type"].(string) == "audio" && nonEmptyAt(contentMap, "data") && nonEmptyAt(contentMap, "mimeType")) ==> ret1 == nil
+//@   ensures[C02 text-item-decoded-as-text] strAt(contentMap, "type") && contentMap["type"].(string) == "text" && strAt(contentMap, "text") ==> istype(ret, TextContent) && ret.(TextContent).Text == contentMap["text"].(string)
+//@   ensures[C02 audio-item-decoded-as-audio] strAt(contentMap, "type") && contentMap["type"].(string) == "audio" && nonEmptyAt(contentMap, "data") && nonEmptyAt(contentMap, "mimeType") ==> istype(ret, AudioContent) && ret.(AudioContent).Data == contentMap["data"].(string)
+//@   ensures[C02 image-item-decoded-as-image] strAt(contentMap, "type") && contentMap["type"].(string) == "image" && nonEmptyAt(contentMap, "data") && nonEmptyAt(contentMap, "mimeType") ==> istype(ret, ImageContent) && ret.(ImageContent).Data == contentMap["data"].(string)
+//@   before call parseResourceContent#1 assert[C02 embedded-resources-are-decoded-under-the-tag-the-encoder-writes] contentType == "resource" || contentType == "embedded_resource"
+//@ func parseResourceContent
+//@   pure
+//@   ensures[C02 an-embedded-resource-is-decoded-with-its-contents] ret1 == nil ==> istype(ret, EmbeddedResource)
+//@ func parseCallToolResult
+//@   loop 1 invariant[C02 one-decoded-item-per-wire-item-so-far] len(result.Content) == rangeindex + 1 && rangeindex + 1 <= len(contentArr)
+//@   before call parseContent#1 assert[C02 items-are-decoded-in-wire-order] asany(arg0) == contentArr[rangeindex + 1]
+//@   before call return#6 assert[C02 as-many-items-as-on-the-wire] ret1 == nil && !isnil(contents) ==> istype(contents, []interface{}) && len(ret.Content) == len(contents.([]interface{}))
+//@   before call return#6 assert[C02 error-flag-is-kept] ret1 == nil && ("isError" in jsonContent) && istype(jsonContent["isError"], bool) ==> ret.IsError == jsonContent["isError"].(bool)
+//@   before call return#6 assert[C02 structured-content-is-kept] ret1 == nil && ("structuredContent" in jsonContent) ==> ret.StructuredContent == jsonContent["structuredContent"]
